@@ -1288,19 +1288,55 @@ theorem sum_take_zero (ls : List (List Char)) (k : Nat)
       simp only [List.take_succ_cons, List.map_cons, List.sum_cons]
       rw [h l (by simp), ih k (fun x hx => h x (List.mem_cons_of_mem _ hx))]
 
-/-- **reportedLineS_eq** (full; holds since pydoctor ce72216): with the extra `splitlines()`
-boundaries blanked before docutils sees the text, docutils' line structure is the `'\n'` structure:
-every `reported_line_*` theorem about `reportedLine` speaks about what pydoctor prints, for every
-docstring and every format. -/
-theorem reportedLineS_eq (fmt : Fmt) (sl : Nat) (doc : List Char) (ln : Int) (im : Bool) (c : Construct) :
-    reportedLineS fmt sl doc ln im c = reportedLine fmt sl doc ln im c := by
+theorem sum_take_map_zero (f : List Char → Nat) (ls : List (List Char)) (k : Nat) (h : ∀ l ∈ ls, f l = 0) :
+    ((ls.take k).map f).sum = 0 := by
+  induction ls generalizing k with
+  | nil => simp
+  | cons l ls ih =>
+    cases k with
+    | zero => simp
+    | succ k =>
+      simp only [List.take_succ_cons, List.map_cons, List.sum_cons]
+      rw [h l (by simp), ih k (fun x hx => h x (List.mem_cons_of_mem _ hx))]
+
+/-- the cleaned docstring has no carriage return (a fortiori no lone one) -/
+def noCR (doc : List Char) : Bool := (cleandocLines doc).all fun l => (l.filter (· = '\r')).length == 0
+
+/-- epytext splits on `'\n'` only: what pydoctor prints is `reportedLine`, for every docstring.
+(The stream `reports` exercises this with every `splitlines()` boundary inside epytext docstrings.) -/
+theorem reportedLineS_epytext (sl : Nat) (doc : List Char) (ln : Int) (im : Bool) (c : Construct) :
+    reportedLineS .epytext sl doc ln im c = reportedLine .epytext sl doc ln im c := by
+  simp only [reportedLineS, lineShift]
+  cases reportedLine .epytext sl doc ln im c <;> simp [shiftLine]
+
+/-- **reportedLineS_eq_partial** (reStructuredText).  Since ce72216 the extra `splitlines()`
+boundaries U+001C–1E, U+0085, U+2028, U+2029 are blanked before docutils sees the text; a lone
+`'\r'` is not, and docutils breaks the line there.  Full statement wanted: no hypothesis. -/
+theorem reportedLineS_eq_partial (sl : Nat) (doc : List Char) (ln : Int) (im : Bool) (c : Construct)
+    (h : noCR doc = true) :
+    reportedLineS .rst sl doc ln im c = reportedLine .rst sl doc ln im c := by
   have hz : extraBreaksIn ((cleandocLines doc).map blankExtraBreaks) (c.raw - dropped doc) = 0 := by
     apply sum_take_zero
     intro l hl
     obtain ⟨l', _, rfl⟩ := List.mem_map.1 hl
     exact filter_blankExtraBreaks l'
-  simp only [reportedLineS, hz]
-  cases reportedLine fmt sl doc ln im c <;> simp [shiftLine]
+  have hc : loneCRsIn (cleandocLines doc) (c.raw - dropped doc) = 0 := by
+    apply sum_take_map_zero
+    intro l hl
+    have := (List.all_eq_true.1 h) l hl
+    have h0 : (l.filter (· = '\r')).length = 0 := by simpa using this
+    simp [loneCRs, h0]
+  simp only [reportedLineS, lineShift, hz, hc]
+  cases reportedLine .rst sl doc ln im c <;> simp [shiftLine]
+
+/-- `"""⏎    a\rb⏎⏎    :f: x⏎    """` (the escape `\r` in a non-raw literal) on line 2: the field
+on physical line 5 is reported on line 6 in reStructuredText, on 5 in epytext. -/
+theorem reportedLineS_lone_cr_counterexample :
+    let doc := "\n    a\rb\n\n    :f: x\n    ".toList
+    noCR doc = false ∧ noOverIndent doc = true ∧
+      reportedLineS .rst 2 doc 1 false ⟨.unknownField, 3, 0⟩ = .num 6 ∧
+      reportedLine .rst 2 doc 1 false ⟨.unknownField, 3, 0⟩ = .num 5 ∧
+      reportedLineS .epytext 2 doc 1 false ⟨.unknownField, 3, 0⟩ = .num 5 := by decide
 
 /-- the cleaned docstring contains none of U+001C–1E, U+0085, U+2028, U+2029 -/
 def noExtraBreaksClean (doc : List Char) : Bool :=
